@@ -876,4 +876,151 @@ theorem c05_step_progress (s : State) (U : List Nat) (h c : Nat)
     rw [← a5] at this
     exact this
 
+
+/-! ### levelling by sync -/
+
+private theorem foldl_max_ge (f : Nat → Bool) (g : Nat → Nat) : ∀ (l : List Nat) (acc : Nat),
+    acc ≤ l.foldl (fun m j => if f j then max m (g j) else m) acc ∧
+    ∀ x ∈ l, f x = true → g x ≤ l.foldl (fun m j => if f j then max m (g j) else m) acc := by
+  intro l
+  induction l with
+  | nil => intro acc; simp
+  | cons a t ih =>
+    intro acc
+    simp only [List.foldl_cons]
+    have h1 := ih (if f a then max acc (g a) else acc)
+    refine ⟨?_, ?_⟩
+    · refine Nat.le_trans ?_ h1.1
+      split <;> omega
+    · intro x hx hfx
+      rcases List.mem_cons.mp hx with he | hx'
+      · subst he
+        refine Nat.le_trans ?_ h1.1
+        simp [hfx]; omega
+      · exact h1.2 x hx' hfx
+
+theorem maxPeerHead_ge (s : State) (i m : Nat) (hm : m < s.n) (hok : s.peerOk i m = true) :
+    (s.node m).head ≤ s.maxPeerHead i := by
+  unfold State.maxPeerHead
+  exact (foldl_max_ge (fun j => s.peerOk i j) (fun j => (s.node j).head) (List.range s.n) 0).2 m (List.mem_range.mpr hm) hok
+
+theorem foldl_pull_other (j : Nat) : ∀ (l : List Nat) (s : State), j ∉ l → (l.foldl State.pull s).node j = s.node j := by
+  intro l
+  induction l with
+  | nil => intro s _; rfl
+  | cons a t ih =>
+    intro s hj
+    simp only [List.foldl_cons]
+    have hja : j ≠ a := fun h => hj (by simp [h])
+    rw [ih (s.pull a) (fun h => hj (by simp [h]))]
+    rcases pull_cases s a with he | he | ⟨_, _, v, he⟩ <;> rw [he]
+    · exact setNode_other _ _ _ _ hja
+    · exact setNode_other _ _ _ _ hja
+
+theorem tickStep_sync (n thr i : Nat) (d : Node) (hu : d.up = true) (hg : d.head + 1 < d.clock) :
+    d.clock ≤ (d.tickStep n thr i).1.syncTo := by
+  unfold Node.tickStep
+  have : Gen.gapSync d.head d.clock = true := by simp [Gen.gapSync, hg]
+  simp only [hu, Bool.not_true, Bool.false_eq_true, if_false, this, if_true, setSync_syncTo]
+  omega
+
+/-- **Levelling.** Within one fair round after the network healed, every member of the healthy side `U` reaches the
+largest head `H` found in `U` (by the sync rule: the tick sees a gap and launches `RunSync`), provided `H` is below the
+round `c` the clocks are about to show. -/
+theorem c05_level (s : State) (U : List Nat) (H c : Nat) (hU : Side s U)
+    (hclk : ∀ i ∈ U, (s.node i).clock + 1 = c)
+    (hmax : ∃ m ∈ U, (s.node m).head = H) (hc : H < c) :
+    ∀ j ∈ U, H ≤ (s.fairTick.node j).head := by
+  intro j hj
+  obtain ⟨m, hmU, hmH⟩ := hmax
+  have eAll : Ext s.advance s.fairTick := Ext.trans (ext_forAll _ _ ext_tick) (ext_settle _)
+  have e0 : ∀ k, (s.advance.node k).up = (s.node k).up ∧ (s.advance.node k).head = (s.node k).head ∧
+      (s.advance.node k).clock = (s.node k).clock + 1 := fun k => ⟨rfl, rfl, rfl⟩
+  by_cases hjh : H ≤ (s.node j).head
+  · exact Nat.le_trans hjh (Nat.le_trans (Nat.le_of_eq (e0 j).2.1.symm) (eAll.head j))
+  · have hmj : m ≠ j := fun h => hjh (by rw [← h, hmH]; exact Nat.le_refl _)
+    -- after the ticks: node j has a sync request up to c
+    obtain ⟨a1, a2, a3, a4, a5⟩ := foldl_act (fun n thr i => Node.tickStep n thr i) (List.range s.advance.n) s.advance List.nodup_range
+    have hA : Ext s.advance (s.advance.forAll State.tick) := ext_forAll _ _ ext_tick
+    have hjA : ((s.advance.forAll State.tick).node j) = (Node.tickStep s.n s.thr j (s.advance.node j)).1 := by
+      have := a4 j
+      simp only [List.mem_range, show j < s.advance.n from hU.lt j hj, if_true] at this
+      exact this
+    have hsync : c ≤ ((s.advance.forAll State.tick).node j).syncTo := by
+      rw [hjA]
+      have := tickStep_sync s.n s.thr j (s.advance.node j) ((e0 j).1.trans (hU.up j hj))
+        (by rw [(e0 j).2.1, (e0 j).2.2, hclk j hj]; omega)
+      rw [(e0 j).2.2, hclk j hj] at this
+      exact this
+    -- the pulls: split the range at j
+    obtain ⟨l1, l2, hl⟩ := List.append_of_mem (List.mem_range.mpr (hA.n ▸ hU.lt j hj) : j ∈ List.range (s.advance.forAll State.tick).n)
+    have hnd : (l1 ++ j :: l2).Nodup := hl ▸ List.nodup_range
+    have hj1 : j ∉ l1 := by
+      intro h
+      have := (List.nodup_append.mp hnd).2.2 j h j (by simp)
+      exact this rfl
+    let sA := s.advance.forAll State.tick
+    let s1 := l1.foldl State.pull sA
+    have hs1 : Ext sA s1 := ext_foldl _ ext_pull _ _
+    have hj1n : s1.node j = sA.node j := foldl_pull_other j l1 sA hj1
+    have hstep : H ≤ ((s1.pull j).node j).head := by
+      have hmph : H ≤ s1.maxPeerHead j := by
+        have hok : s1.peerOk j m = true := by
+          have hup : (s1.node m).up = true := by
+            rw [hs1.up m, hA.up m, (e0 m).1]; exact hU.up m hmU
+          have hcn : s1.conn = s.conn := hs1.conn.trans hA.conn
+          simp [State.peerOk, hmj, hup, hcn, hU.conn j hj m hmU, hU.conn m hmU j hj]
+        have := maxPeerHead_ge s1 j m (by rw [hs1.n, hA.n]; exact hU.lt m hmU) hok
+        have h2 : H ≤ (s1.node m).head := by
+          have := Nat.le_trans (hA.head m) (hs1.head m)
+          rw [(e0 m).2.1, hmH] at this; exact this
+        omega
+      rcases pull_cases s1 j with he | he | ⟨_, hlt, v, he⟩
+      · -- nothing happened: impossible unless the head is already there
+        by_cases hdone : H ≤ (s1.node j).head
+        · rw [he]; exact hdone
+        · exfalso
+          have hup : (s1.node j).up = true := by rw [hs1.up j, hA.up j, (e0 j).1]; exact hU.up j hj
+          have hsy : c ≤ (s1.node j).syncTo := by rw [hj1n]; exact hsync
+          have : s1.pull j ≠ s1 := by
+            intro hcontra
+            have h3 := congrArg (fun x => (x.node j).head) hcontra
+            unfold State.pull at hcontra
+            have hf : Gen.syncFilled (s1.node j).syncTo (s1.node j).head = false := by
+              simp [Gen.syncFilled]; omega
+            have hne : (s1.node j).syncTo ≠ 0 := by omega
+            have hm2 : ¬ s1.maxPeerHead j ≤ (s1.node j).head := by omega
+            simp only [hup, Bool.not_true, Bool.false_eq_true, if_false, hne, hf, hm2] at hcontra
+            have h4 := congrArg (fun x => (x.node j).head) hcontra
+            simp only [setNode_same, setSync_head, appendTo_head] at h4
+            omega
+          exact this he
+      · by_cases hdone : H ≤ (s1.node j).head
+        · rw [he]; simpa using hdone
+        · exfalso
+          have hup : (s1.node j).up = true := by rw [hs1.up j, hA.up j, (e0 j).1]; exact hU.up j hj
+          have hsy : c ≤ (s1.node j).syncTo := by rw [hj1n]; exact hsync
+          unfold State.pull at he
+          have hf : Gen.syncFilled (s1.node j).syncTo (s1.node j).head = false := by
+            simp [Gen.syncFilled]; omega
+          have hne : (s1.node j).syncTo ≠ 0 := by omega
+          have hm2 : ¬ s1.maxPeerHead j ≤ (s1.node j).head := by omega
+          simp only [hup, Bool.not_true, Bool.false_eq_true, if_false, hne, hf, hm2] at he
+          have h4 := congrArg (fun x => (x.node j).head) he
+          simp only [setNode_same, setSync_head, appendTo_head] at h4
+          omega
+      · rw [he]
+        simp only [setNode_same, setSync_head, appendTo_head]
+        have hsy : c ≤ (s1.node j).syncTo := by rw [hj1n]; exact hsync
+        omega
+    -- the rest of the sub-round only moves heads up
+    have hrest : Ext (s1.pull j) s.fairTick := by
+      have h1 : sA.forAll State.pull = l2.foldl State.pull (s1.pull j) := by
+        show (List.range sA.n).foldl State.pull sA = _
+        rw [hl, List.foldl_append, List.foldl_cons]
+      have h2 : s.fairTick = ((sA.forAll State.pull).deliverAll).forAll State.pull := rfl
+      rw [h2, h1]
+      exact Ext.trans (Ext.trans (ext_foldl _ ext_pull _ _) (ext_deliverAll _)) (ext_forAll _ _ ext_pull)
+    exact Nat.le_trans hstep (hrest.head j)
+
 end Drand.Net
